@@ -226,6 +226,8 @@ pub enum Op {
     /// either wakes itself during the poll (yield pattern) or relies on an environment Wakeup /
     /// on the loop's sources; `max_iters` bounds the iterations (the closure then stops the loop)
     BlockOn { pendings: u32, self_wake: bool, max_iters: u32 },
+    /// n ping sources with ids base..base+n, all pinged (many simultaneously ready sources)
+    ManyPings { base: Id, n: u32 },
 }
 
 pub const INTEREST_NAMES: [&str; 4] = ["EMPTY", "READ", "WRITE", "BOTH"];
@@ -347,6 +349,7 @@ impl Op {
             Op::TrRemoveLazy(_) => "TrRemoveLazy",
             Op::TrReplaceLazy(..) => "TrReplaceLazy",
             Op::BlockOn { .. } => "BlockOn",
+            Op::ManyPings { .. } => "ManyPings",
         }
     }
 }
